@@ -907,7 +907,7 @@ theorem unmarshalPayload_typeSK (nx : UInt8) (body : Bytes) :
     unmarshalPayload Facts.typeSK nx body = .ok (.sk nx body) := rfl
 
 /-- one container step over an encoded Encrypted payload -/
-theorem chainStep_sk (ft : UInt8) (enc tl : Bytes) (hlen : 4 + enc.length ≤ 0xFFFF) :
+theorem chainStep_sk (ft : UInt8) (enc tl : Bytes) (hlen : 4 + enc.length ≤ 0xFFFF) (htl : tl.length = 0) :
     chainStep Facts.typeSK ([ft, 0] ++ put16 (UInt16.ofNat (4 + enc.length)) ++ enc ++ tl)
       = .ok (some (.sk ft enc), ft, 4 + enc.length) := by
   have hl : (UInt16.ofNat (4 + enc.length)).toNat = 4 + enc.length := ofNat_toNat_u16 _ (by omega)
@@ -932,11 +932,12 @@ theorem chainStep_sk (ft : UInt8) (enc tl : Bytes) (hlen : 4 + enc.length ≤ 0x
   have hnx : byteAt ([ft, 0] ++ put16 v ++ enc ++ tl) 0 = ft := by simp
   rw [hbody, hnx, unmarshalPayload_typeSK]
   simp
+  omega
 
 /-- a container holding exactly one Encrypted payload decodes to it -/
 theorem decodeChain_sk (ft : UInt8) (enc : Bytes) (hlen : 4 + enc.length ≤ 0xFFFF) :
     decodeChain Facts.typeSK ([ft, 0] ++ put16 (UInt16.ofNat (4 + enc.length)) ++ enc) = .ok [.sk ft enc] := by
-  have hstep := chainStep_sk ft enc [] hlen
+  have hstep := chainStep_sk ft enc [] hlen rfl
   rw [List.append_nil] at hstep
   rw [decodeChain, dif_neg (by len_omega), hstep]
   simp only
